@@ -2360,6 +2360,7 @@ def _emit_block(
             lines.append(f"{indent}    noTone({pin_code});")
             lines.append(f"{indent}  }} else {{")
             lines.append(f"{indent}    unsigned int __redu_tone = static_cast<unsigned int>(__redu_freq + 0.5f);")
+            lines.append(f"{indent}    if (__redu_tone < 1U) {{ __redu_tone = 1U; }}")
             lines.append(f"{indent}    tone({pin_code}, __redu_tone);")
             lines.append(f"{indent}    {state_var} = true;")
             lines.append(f"{indent}    {current_var} = __redu_freq;")
@@ -2408,6 +2409,7 @@ def _emit_block(
             lines.append(f"{indent}  for (int __redu_i = 0; __redu_i < __redu_times; ++__redu_i) {{")
             lines.append(f"{indent}    if (__redu_freq_target > 0.0f) {{")
             lines.append(f"{indent}      unsigned int __redu_tone = static_cast<unsigned int>(__redu_freq_target + 0.5f);")
+            lines.append(f"{indent}      if (__redu_tone < 1U) {{ __redu_tone = 1U; }}")
             lines.append(f"{indent}      tone({pin_code}, __redu_tone);")
             lines.append(f"{indent}      {state_var} = true;")
             lines.append(f"{indent}      {current_var} = __redu_freq_target;")
@@ -2453,6 +2455,7 @@ def _emit_block(
             lines.append(f"{indent}    if (__redu_freq < 0.0f) {{ __redu_freq = 0.0f; }}")
             lines.append(f"{indent}    if (__redu_freq > 0.0f) {{")
             lines.append(f"{indent}      unsigned int __redu_tone = static_cast<unsigned int>(__redu_freq + 0.5f);")
+            lines.append(f"{indent}      if (__redu_tone < 1U) {{ __redu_tone = 1U; }}")
             lines.append(f"{indent}      tone({pin_code}, __redu_tone);")
             lines.append(f"{indent}      {state_var} = true;")
             lines.append(f"{indent}      {current_var} = __redu_freq;")
